@@ -196,6 +196,7 @@ func c04Alphabet() []act {
 		{"T2", func(d uint32, t int) []byte { return tmplMsg(d, t, []absv.Spec{sU16, sU8}) }},
 		{"T3", func(d uint32, t int) []byte { return tmplMsg(d, t, []absv.Spec{sStr}) }},
 		{"T4", func(d uint32, t int) []byte { return tmplMsg(d, t, []absv.Spec{sU8, sUnk}) }},
+		{"T5", func(d uint32, t int) []byte { return tmplMsg(d, t, []absv.Spec{{ID: 999, Len: 1}, sU8, sU8}) }}, // the same unknown element, another length
 		{"BadLate", func(d uint32, t int) []byte {
 			b := absv.TemplateBody(t, []absv.Spec{sU8, sU16, sU8})
 			return absv.Message(1, 0, d, 2, b[:len(b)-6])
@@ -211,7 +212,7 @@ func c04Alphabet() []act {
 func runC04(d *drv, r *rand.Rand, thorough bool) {
 	d.logStore = true
 	alpha := c04Alphabet()
-	doms := []uint32{1, 2}
+	doms := []uint32{0, 1}
 	tids := []int{256, 257}
 	type step struct {
 		a   int
@@ -244,7 +245,7 @@ func runC04(d *drv, r *rand.Rand, thorough bool) {
 			return
 		}
 		for _, st := range steps {
-			if len(prefix) == 0 && (st.dom != 1 || st.tid != 256) {
+			if len(prefix) == 0 && st.tid != 256 {
 				continue
 			}
 			rec(append(prefix, st))
@@ -256,7 +257,7 @@ func runC04(d *drv, r *rand.Rand, thorough bool) {
 	if thorough {
 		n = 3000
 	}
-	bigDoms := []uint32{1, 2, 0x80000001, 0xffffffff}
+	bigDoms := []uint32{0, 1, 0x80000001, 0xffffffff}
 	for i := 0; i < n; i++ {
 		s := d.open(modes[r.Intn(3)], "rnd")
 		for j := 0; j < 6+r.Intn(20); j++ {
